@@ -209,6 +209,21 @@ class C10:
         for f in pts:
             c = copy.deepcopy(case)
             c["fault"] = f
+            if case["kind"] == "live" and not case["cfg"]["auto_refresh"] and not f.get("persistent"):
+                # life after the fault: the same Live object is started again (on a cleared
+                # terminal) and used normally -- a failed block must not leave the display object
+                # in a state that breaks its next run
+                H, W = case["cfg"]["height"], case["cfg"]["width"]
+                al = []
+                for j in range(rng.randint(2, 5)):
+                    r = rng.random()
+                    if r < 0.45:
+                        al.append(["update", gen_frame(rng, 900 + j, H, W), rng.random() < 0.7])
+                    elif r < 0.75:
+                        al.append(["refresh"])
+                    else:
+                        al.append(["print", {"t": "text", "lines": ["P%d after" % (900 + j)], "style": None}])
+                c["afterlife"] = al
             out.append(c)
         return out
 
@@ -489,6 +504,45 @@ class Program:
             self.other_tb = traceback.format_exc()
             o.stop_checks = True
         self.post_checks()
+        al = self.case.get("afterlife")
+        fired = self.counter.fired > 0 or self.probes["body_fault_fired"] > 0
+        if al and fired and o.viol is None and not self.viol and self.other_exc is None and not o.relaxed and not o.tags:
+            self._afterlife(al)
+
+    def _afterlife(self, ops):
+        """Second run of the same display object after a block that was left by a fault, on a
+        terminal that has been cleared in between (fresh screen model, fresh oracle state)."""
+        cfg = self.cfg
+        old = self.oracle
+        o = self.oracle = DisplayOracle(self.sim, cfg["width"], cfg["height"], self.pristine, kind=self.kind,
+                                        transient=cfg["transient"], overflow=cfg["overflow"])
+        o.client_tids = set(old.client_tids)
+        o.frames_fn = self.frames
+        self.file.on_write = o.on_write
+        self.started = False
+        self.pending_out = {"o": "", "e": ""}
+        self.probes["afterlife_runs"] = self.probes.get("afterlife_runs", 0) + 1
+        fired_before = self.counter.fired
+        try:
+            self._op_start()
+            self.display.start()
+            self._after_start()
+            for op in ops:
+                self.sim.yield_point("op")
+                self.do(op)
+            self._op_stop_begin()
+            self.display.stop()
+            self._op_stop_end()
+        except FAULTS:
+            o.stop_checks = True
+            return
+        if self.counter.fired != fired_before:
+            return
+        if not o.scr.cursor_visible:
+            self.viol.append(("cleanup", "cursor-hidden-after-exit", "cursor hidden after the second run of the display (after a faulted first run)"))
+        if sys.stdout is not self.stdout_sentinel or sys.stderr is not self.stderr_sentinel:
+            self.viol.append(("cleanup", "stdio-not-restored", "stdout/stderr still redirected after the second run of the display"))
+            sys.stdout, sys.stderr = self.stdout_sentinel, self.stderr_sentinel
 
     def _body_fault(self):
         self.probes["body_fault_fired"] += 1
